@@ -58,6 +58,8 @@ func init() {
 		mutation{"seen-before-validation", "cmd/internal/listen/listen.go", "		host, _, err := net.SplitHostPort(a)\n		if err != nil {\n			return nil, err\n		}", "		seen[a] = struct{}{}\n		host, _, err := net.SplitHostPort(a)\n		if err != nil {\n			return nil, err\n		}", "listen"},
 		mutation{"any-hostname-allowed", "cmd/internal/listen/listen.go", "		if host != \"\" && net.ParseIP(host) == nil && host != FlyGlobalServicesHost {", "		if host != \"\" && net.ParseIP(host) == nil && !strings.HasPrefix(host, \"fly-\") {", "listen"},
 		mutation{"empty-override-wins", "cmd/internal/listen/listen.go", "	if trimmed := coalesceAddrs(overrides); len(trimmed) > 0 {\n		addrs = trimmed\n	}", "	if len(overrides) > 0 {\n		addrs = coalesceAddrs(overrides)\n	}", "listen"},
+		mutation{"network-by-if-chain", "cmd/internal/listen/listen.go", "	switch version {\n	case IPV4:\n		return proto + \"4\"\n	case IPV6:\n		return proto + \"6\"\n	default:\n		return proto\n	}", "	if version == IPV4 {\n		return proto + \"4\"\n	}\n	if version == IPV6 {\n		return proto + \"6\"\n	}\n	return proto", "!listen"},
+		mutation{"network-if-chain-v4-for-all", "cmd/internal/listen/listen.go", "	switch version {\n	case IPV4:\n		return proto + \"4\"\n	case IPV6:\n		return proto + \"6\"\n	default:\n		return proto\n	}", "	if version != IPV6 {\n		return proto + \"4\"\n	}\n	return proto + \"6\"", "listen"},
 		mutation{"v6-network-swapped", "cmd/internal/listen/listen.go", "	case IPV6:\n		return proto + \"6\"", "	case IPV6:\n		return proto + \"4\"", "listen"},
 	)
 }
@@ -752,29 +754,37 @@ func runC47(c *Ctx) {
 	want := map[string]string{"IPV4": "\"4\"", "IPV6": "\"6\""}
 	got := map[string]string{}
 	defOK := false
-	ast.Inspect(nf.Body, func(n ast.Node) bool {
-		cc, ok := n.(*ast.CaseClause)
-		if !ok {
-			return true
+	// decided per return from the path facts, so a switch, an if-chain and early returns
+	// are all read alike
+	isVer := func(e ast.Expr) bool { return nf.Prov(e) == "param#1" }
+	nret := 0
+	for _, r := range nf.Returns() {
+		if len(r.Results) != 1 {
+			continue
 		}
-		for _, st := range cc.Body {
-			r, ok := st.(*ast.ReturnStmt)
-			if !ok {
-				continue
+		nret++
+		pos, neg := nf.FactsAt(r).EqConsts(nf, isVer)
+		if len(pos) == 0 {
+			// the remaining versions
+			negs := map[string]bool{}
+			for _, k := range neg {
+				negs[k] = true
 			}
-			if cc.List == nil {
-				defOK = nf.Prov(r.Results[0]) == "param#0"
-				continue
+			defOK = nf.Prov(r.Results[0]) == "param#0" && negs["IPV4"] && negs["IPV6"]
+			continue
+		}
+		be, ok := ast.Unparen(r.Results[0]).(*ast.BinaryExpr)
+		if ok && be.Op == token.ADD && nf.Prov(be.X) == "param#0" {
+			v, _ := nf.ConstVal(be.Y)
+			for _, k := range pos {
+				got[k] = v
 			}
-			be, ok := r.Results[0].(*ast.BinaryExpr)
-			if ok && be.Op == token.ADD && nf.Prov(be.X) == "param#0" {
-				v, _ := nf.ConstVal(be.Y)
-				for _, e := range cc.List {
-					got[constName(nf, e)] = v
-				}
+		} else {
+			for _, k := range pos {
+				got[k] = "?" + nf.Str(r.Results[0])
 			}
 		}
-		return true
-	})
+	}
+	c.Floor("NetworkForVersion returns", nret, 3)
 	c.Ob("listen", "NetworkForVersion#mapping", nf.Decl.Pos(), got["IPV4"] == want["IPV4"] && got["IPV6"] == want["IPV6"] && defOK, fmt.Sprintf("V4 -> proto4, V6 -> proto6, default -> proto; found %v default=%v", got, defOK))
 }
